@@ -30,6 +30,8 @@ func maybeApplied(outcome string) bool {
 	switch {
 	case strings.HasPrefix(outcome, "write_timeout"):
 		return true
+	case strings.HasPrefix(outcome, "undecodable_"):
+		return true
 	case outcome == "server", outcome == "overloaded", outcome == "truncate", outcome == "read_failure", outcome == "write_failure":
 		return true
 	}
@@ -48,6 +50,7 @@ func c04(e *Env) {
 	cfg := swarmWorld(e)
 	cfg.IdempotentGraph = c.Choose("idemgraph", 3) == 2
 	p := fwdParams{
+		ExoticErrors: true,
 		Hosts:        1 + c.Choose("hosts", 4),
 		NumConns:     1 + c.Choose("numconns", 2),
 		Clients:      1 + c.Choose("clients", 3),
@@ -109,6 +112,14 @@ func c04(e *Env) {
 				if !cl.Connected() || len(r.Replies) == 0 {
 					continue
 				}
+				if x := r.Replies[0].Exotic; x != "" || (!a.Dropped && strings.HasPrefix(a.Outcome, "undecodable_")) {
+					// an error response only the codec library cannot decode is passed on as it is
+					if x != a.Outcome || !strings.Contains(string(r.Replies[0].Raw), r.Token) {
+						w.Violate("c04-reply", "non-idempotent-wrong-reply", fmt.Sprintf("request %s: last attempt ended in %s but the client received %v (undecoded error: %q)", r, a.Outcome, replyMsg(r), x))
+						return
+					}
+					continue
+				}
 				m := replyMsg(r)
 				em, isErr := m.(message.Error)
 				if !isErr {
@@ -138,6 +149,9 @@ func classOf(a *world.Attempt) string {
 	o := a.Outcome
 	if strings.HasPrefix(o, "write_timeout") {
 		return "write-timeout"
+	}
+	if strings.HasPrefix(o, "undecodable_") {
+		return "undecodable-error"
 	}
 	return o
 }
